@@ -658,3 +658,32 @@ package corerad
 //@   at call Wait(wg2) (werr): assert W1 [C20]: ghost.started == len(old(tasks)) + 1
 //@   ensures E1 [C20]: ghost.started == len(old(tasks)) + 1
 //@   opt safety [C20]
+
+// ---------------------------------------------------------------------------
+// advertise.go: Run's per-connection body (C08 ordering, C10)
+
+//@ ghost var shutdowns Int
+//@ func (*Advertiser).advertise
+//@   requires P1: ctx != nil && conn != nil && advOK(a) && ifiOK(a.cfg) && a.minDelayBetweenRAs > 0 && a.minDelayBetweenRAs <= secs(3600)
+//@   assigns everything
+//@   opt preserves ghost.shutdowns, heap(corerad.Advertiser), heap(corerad.Context), heap(corerad.Metrics), heap(plugin.Prefix), heap(plugin.Route), heap(plugin.RDNSS), heap(plugin.DNSSL), heap(plugin.MTU), heap(plugin.LLA), heap(plugin.CaptivePortal), heap(plugin.PREF64), heap(ndp.PREF64), heap(ndp.CaptivePortal), mem(plugin.Plugin), mem(string), mem(netip.Addr)
+//@   ensures E1: result != nil
+//@   opt trusted the errgroup body is verified member by member (schedule, multicast, Listen, linkStateWatcher); that Wait()==nil implies the shared context is done needs errgroup semantics across goroutines
+
+// The closure Run hands to Dialer.Dial: prepare, initial RA, advertise, and on
+// cancellation the final RA - strictly after advertise has returned.
+//@ func (*Advertiser).Run$1
+//@   ghost local advDone Bool
+//@   ghost local advErr Iface
+//@   ghost local sd Int
+//@   opt capture CAP
+//@   requires CAP [C08]: a != nil && advOK(a) && ifiCfgOK(a.cfg) && a.terminate != nil && a.minDelayBetweenRAs > 0 && a.minDelayBetweenRAs <= secs(3600)
+//@   requires P1: ctx != nil && dctx != nil && dctx.Conn != nil
+//@   assigns everything
+//@   loop 1 invariant L1 [C08]: 0 <= rangeindex + 1 && rangeindex + 1 <= len(a.cfg.Plugins) && a != nil && advOK(a) && ifiCfgOK(a.cfg) && a.terminate != nil && a.minDelayBetweenRAs > 0 && a.minDelayBetweenRAs <= secs(3600) && ctx != nil && dctx != nil && dctx.Conn != nil && !ghost.advDone && ghost.sd == 0
+//@   at call advertise(aa, actx, aconn) (aerr): ghost.advDone = true ; ghost.advErr = aerr
+//@   at call shutdown(sa, sconn): assert S1 [C08]: ghost.advDone && errIs(ghost.advErr, global("context.Canceled")) && ghost.sd == 0 ; ghost.sd = ghost.sd + 1
+//@   ensures E1 [C08]: ghost.advDone && errIs(ghost.advErr, global("context.Canceled")) ==> result == nil && ghost.sd == 1
+//@   ensures E2 [C08,C10]: ghost.advDone && !errIs(ghost.advErr, global("context.Canceled")) ==> result == ghost.advErr && result != nil && ghost.sd == 0
+//@   ensures E3 [C08]: !ghost.advDone ==> ghost.sd == 0 && result != nil
+//@   opt safety [C08]
